@@ -48,12 +48,26 @@ pub struct GenTet {
 pub fn rand_placed_lib(rng: &mut Rng, max_cells: usize, with_abstracts: bool) -> GenTet {
     let n = 1 + rng.usize(max_cells);
     let mut cells: Vec<Ptr<Cell>> = Vec::new();
-    let mut names = Vec::new();
+    let mut names: Vec<String> = Vec::new();
     let mut deps = Vec::new();
     for i in 0..n {
-        let name = format!("{}{}", rng.pick(&["tcell", "Unit", "blk_", "Top"]), i);
+        let mut name = format!("{}{}", rng.pick(&["tcell", "Unit", "blk_", "Top"]), i);
+        if rng.chance(1, 6) {
+            // a long, mostly non-ASCII name (names are spliced into the converters' error messages and map keys)
+            let tl = 150 + rng.usize(200);
+            let tail = String::from_utf8(crate::gen::gdsgen::long_nonascii(rng, tl)).unwrap();
+            name.push('_');
+            name.push_str(&tail);
+        }
         // the layout view's own name may differ from the cell's
-        let lay_name = if rng.chance(1, 5) { format!("{}_lay", name) } else { name.clone() };
+        // ... in particular it may be the name of ANOTHER cell of the library
+        let lay_name = if rng.chance(1, 5) {
+            format!("{}_lay", name)
+        } else if !names.is_empty() && rng.chance(1, 6) {
+            rng.pick(&names).clone()
+        } else {
+            name.clone()
+        };
         let mut lay = Layout::new(lay_name, rng.usize(5), rand_outline(rng));
         let mut d = Vec::new();
         if i > 0 {
